@@ -55,11 +55,12 @@ pub struct Shared {
 #[derive(Debug)]
 pub struct SpySection {
     pub shared: Arc<Shared>,
+    pub name: &'static str,
 }
 
 impl CustomSection for SpySection {
     fn name(&self) -> &str {
-        "verif-spy"
+        self.name
     }
     fn data(&self, ids: &IdsToIndices) -> Cow<[u8]> {
         *self.shared.data_calls.lock().unwrap() += 1;
@@ -114,6 +115,12 @@ fn collect<T: Copy>(get: impl Fn(u32) -> walrus::Result<T>, what: &str, bad: &mu
 
 /// Configure `cfg` so that parsing records the index map and installs the spy.
 pub fn install(cfg: &mut ModuleConfig, n_locals_hint: Vec<usize>) -> Arc<Shared> {
+    install_named(cfg, n_locals_hint, "verif-spy")
+}
+
+/// as `install`, with the spy section under a chosen name (tool-convention
+/// names such as `dylink.0` included: the map must be complete for them too)
+pub fn install_named(cfg: &mut ModuleConfig, n_locals_hint: Vec<usize>, spy_name: &'static str) -> Arc<Shared> {
     let shared = Arc::new(Shared::default());
     let s2 = shared.clone();
     cfg.on_parse(move |module, indices| {
@@ -147,7 +154,7 @@ pub fn install(cfg: &mut ModuleConfig, n_locals_hint: Vec<usize>) -> Arc<Shared>
         }
         ids.out_of_range_ok = bad;
         *s2.parse_ids.lock().unwrap() = Some(ids);
-        module.customs.add(SpySection { shared: s2.clone() });
+        module.customs.add(SpySection { shared: s2.clone(), name: spy_name });
         Ok(())
     });
     shared
